@@ -1016,7 +1016,8 @@ def replay_sorting(viol):
 # ---------------------------------------------------------------- C23 (arg/3)
 def replay_arg(viol):
     cases = []
-    prog = ("show(X) :- write(X), nl.\n"
+    prog = (":- use_module(library(lists)).\n"
+            "show(X) :- write(X), nl.\n"
             "r(G, T, R) :- catch(( G -> R = yes(T) ; R = no ), error(E, _), R = err(E)).\n")
     term = "f(a,b,c)"
     for n, want in ((0, "no"), (1, "yes(a)"), (2, "yes(b)"), (3, "yes(c)"), (4, "no"), (-1, "err(domain_error(not_less_than_zero,-1))")):
@@ -1057,6 +1058,24 @@ def replay_arg(viol):
               ("r(functor(_, 7, 1), x, R), showq(R)", "err(type_error(atom,7))"),
               ("r(functor(f(a), g, 1), x, R), showq(R)", "no"), ("r(functor(f(a), f, 2), x, R), showq(R)", "no"),
               ("r(functor(f(a), f, 1), x, R), showq(R)", "yes(x)")]
+    # the block functor/3 fabricates: distinct unbound arguments, at the boundary arities, usable afterwards
+    cases += [("r(functor(T, foo, 1), T, R), showv(R)", "yes(foo(A))"),
+              ("r(functor(T, '.', 3), T, R), showv(R)", "yes('.'(A,B,C))"),
+              ("r(functor(T, '.', 1), T, R), showv(R)", "yes('.'(A))"),
+              ("r(functor(T, '.', 0), T, R), showq(R)", "yes('.')"),
+              ("r(functor(T, [], 0), T, R), showq(R)", "yes([])"),
+              ("r((functor(T, f, 3), arg(1, T, a), arg(3, T, c)), T, R), showv(R)", "yes(f(a,A,c))"),
+              ("r((functor(T, f, 3), X = bar(1,2), T = f(P,_,_), P = X), T-X, R), showv(R)", "yes(f(bar(1,2),A,B)-bar(1,2))"),
+              ("r((functor(T, '.', 2), X = g(z), T = [H|Tl], Tl = [], H = X), T-X, R), showv(R)", "yes([g(z)]-g(z))"),
+              ("r((functor(T, h, 2), T = h(A, B), A = 1, var(B)), T, R), showv(R)", "yes(h(1,A))"),
+              ("r((functor(T, g, 255), T =.. [_|As], length(As, L), arg(255, T, e), arg(254, T, V254), var(V254), arg(1, T, V1), var(V1)), L, R), showq(R)", "yes(255)"),
+              ("r((functor(T, g, 255), term_variables(T, Vs), length(Vs, L)), L, R), showq(R)", "yes(255)"),
+              ("r(functor(_, foo, 256), x, R), showq(R)", "err(representation_error(max_arity))"),
+              ("N is 2^60-2^60+256, r(functor(_, foo, N), x, R), showq(R)", "err(representation_error(max_arity))"),
+              ("N is 2^70, r(functor(_, foo, N), x, R), showq(R)", "err(representation_error(max_arity))"),
+              ("N is -(2^70), r(functor(_, foo, N), x, R), showq(R)", "err(domain_error(not_less_than_zero,-1180591620717411303424))"),
+              ("r((functor(T, p, 2), functor(U, p, 2), T = p(a, _), U = p(_, b), T = U), T, R), showq(R)", "yes(p(a,b))"),
+              ("r((functor(T, p, 2), copy_term(T, U), T = p(a, a), U = p(X, Y), var(X), var(Y), X \\== Y), x, R), showq(R)", "yes(x)")]
     prog += ("showq(X) :- writeq(X), nl.\n"
              "showv(R) :- copy_term(R, C), term_variables(C, Vs), nv(Vs, 0), write_term(C, [numbervars(true), quoted(true)]), nl.\n"
              "nv([], _).\nnv(['$VAR'(N)|Vs], N) :- N1 is N + 1, nv(Vs, N1).\n")
